@@ -118,6 +118,10 @@ func (s *Service) handleSubmitSyncCommitteeContributionsError(ctx context.Contex
 			return err
 		}
 		for i := range len(resp.Failures) {
+			if resp.Failures[i] == nil {
+				// Not something we can classify, so not an allowable failure.
+				continue
+			}
 			switch {
 			case strings.HasPrefix(resp.Failures[i].Message, "Verification: AggregatorAlreadyKnown"):
 				s.log.Trace().Str("beacon_node_address", address).Int("index", resp.Failures[i].Index).Msg("Contribution and proof already received for that slot; ignoring")
@@ -126,7 +130,7 @@ func (s *Service) handleSubmitSyncCommitteeContributionsError(ctx context.Contex
 				s.log.Trace().Str("beacon_node_address", address).Int("index", resp.Failures[i].Index).Str("msg", resp.Failures[i].Message).Msg("Real lighthouse error")
 			}
 		}
-		if len(resp.Failures) == allowedFailures {
+		if len(resp.Failures) > 0 && len(resp.Failures) == allowedFailures {
 			s.log.Trace().Str("beacon_node_address", address).Msg("Errors from node are allowable; no error")
 			return nil
 		}
